@@ -556,6 +556,15 @@ def fam_mem_fixed():
     c = _mem_prog("mfixed-func-enable", P(X), ["call", "hot", [Y, K(4)]], fam="fixed")
     c["stmts"] = [Fn("hot", [("Signal", "v"), ("int", "k")], [], ["cmp", ">", V("v"), V("k")])] + c["stmts"]
     progs.append(c)
+    # round 4: ONE named value used as the data of one cell (its type = the cell's type, wired directly) and as the enable of another, both orders
+    for en_nm, e_expr, mt in (("arith", ["bin", "+", X, Z], "signal-A"), ("arith-proj", P(["bin", "+", X, Z]), "signal-M"), ("cmp", P(["cmp", ">", X, K(3)]), "signal-M"), ("input", None, "signal-A")):
+        for order in ("data-first", "enable-first"):
+            ev = V("e") if e_expr is not None else X
+            w1 = [["mem", "m", mt], ["write", "m", ev, ["cmp", ">", Y, K(3)]]]
+            w2 = [["mem", "n", "signal-N"], ["write", "n", P(Y, "signal-N"), ev]]
+            st = [["input", n, t, d] for (n, t, d) in M_INPUTS] + ([["sig", "e", e_expr]] if e_expr is not None else []) + (w1 + w2 if order == "data-first" else w2 + w1)
+            st += [["sig", "r0", ["read", "m"]], ["sig", "s0", ["read", "n"]]]
+            progs.append({"id": f"mfixed-value-and-enable-{en_nm}-{order}", "family": "fixed", "stmts": st, "kind": "history"})
     named_en = _mem_prog("mfixed-named-enable", P(X), V("en"), fam="fixed")
     named_en["stmts"].insert(3, ["sig", "en", ["cmp", ">", Y, K(0)]])
     progs.append(named_en)
@@ -1260,6 +1269,14 @@ def corpus_c12(tier):
         return [["input", "a", "signal-A", 10007], ["sig", "x", ["bin", "*", V("a"), ["lit", "signal-B", K(k)]]], ["sig", "y", ["proj", ["bin", "*", ["bin", "+", V("a"), ["lit", "signal-A", K(10)]], K(mul)], "signal-X"]]]
     cases.append(_pq_case("pq-same-inline-literal", litprog(3, 2), litprog(3, 2), random.Random("pq-lit"), 3))
     cases.append(_pq_case("pq-same-inline-literal-2", litprog(3, 2), litprog(3, 5), random.Random("pq-lit2"), 2, same_sentinels=True))
+    # round 4: both programs keep a cell on the SAME explicit signal and compute the same expression over their own read
+    def memtwin(step, mul, gated):
+        w = ["write", "m", ["proj", V("a"), "signal-A"], ["cmp", ">", V("b"), K(0)]] if gated else ["write", "m", ["bin", "%", ["bin", "+", ["read", "m"], K(step)], K(10)], None]
+        return [["input", "a", "signal-A", 10007], ["input", "b", "signal-B", 10009], ["mem", "m", "signal-A"], w, ["sig", "o", ["proj", ["bin", "*", ["read", "m"], K(mul)], "signal-X"]], ["sig", "t", ["proj", ["cmp", ">", ["read", "m"], K(4)], "signal-Y"]]]
+    cases.append(_pq_case("pq-memtwin-counter", memtwin(1, 2, False), memtwin(1, 2, False), random.Random("pq-memtwin1"), 2, K=3, same_sentinels=True))
+    cases.append(_pq_case("pq-memtwin-counter-step", memtwin(1, 2, False), memtwin(3, 2, False), random.Random("pq-memtwin2"), 2, K=3, same_sentinels=True))
+    cases.append(_pq_case("pq-memtwin-gated", memtwin(1, 2, True), memtwin(1, 2, True), random.Random("pq-memtwin3"), 2, K=3))
+    cases.append(_pq_case("pq-memtwin-gated-counter", memtwin(1, 2, True), memtwin(1, 2, False), random.Random("pq-memtwin4"), 2, K=3))
     step = 6 if tier == "quick" else 2
     for j, c in enumerate(fam_expr_fixed()):
         if j % step == 0 and c["id"] not in ("fixed-many",):
@@ -1723,6 +1740,13 @@ def fam_imports():
     helper = F("fh", [], ["bin", "+", ["call", "kk", [X]], K(0)])
     add("nested-same-name-beside-entry", {"sub/helper.facto": [["import", "consts.facto"], helper], "sub/consts.facto": [consts_sub], "consts.facto": [consts_top]}, ["sub/helper.facto"], [["call", "fh", [A]]], [consts_sub, helper])
     add("nested-same-name-two-levels", {"sub/deep/helper.facto": [["import", "consts.facto"], helper], "sub/deep/consts.facto": [consts_sub], "sub/consts.facto": [consts_top], "consts.facto": [consts_top]}, ["sub/deep/helper.facto"], [["call", "fh", [A]]], [consts_sub, helper])
+    # round 4: one file reached under two spellings (.., ., a redundant sub/..) must still be included once
+    fh_c = F("fh", [], ["bin", "+", ["call", "fc", [X]], K(5)])
+    add("respelled-dotdot", {"common.facto": [fc], "sub/helper.facto": [["import", "../common.facto"], fh_c]}, ["common.facto", "sub/helper.facto"], [["call", "fc", [A]], ["call", "fh", [B]]], [fc, fh_c])
+    add("respelled-dotdot-first", {"common.facto": [fc], "sub/helper.facto": [["import", "../common.facto"], fh_c]}, ["sub/helper.facto", "common.facto"], [["call", "fc", [A]], ["call", "fh", [B]]], [fc, fh_c])
+    add("respelled-dot", {"a.facto": [fa]}, ["a.facto", "./a.facto"], [["call", "fa", [A]]], [fa])
+    add("respelled-sub-up", {"a.facto": [fa], "sub/b.facto": [fb]}, ["a.facto", "sub/../a.facto", "sub/b.facto"], [["call", "fa", [A]], ["call", "fb", [B]]], [fa, fb])
+    add("respelled-cycle", {"sub/a.facto": [["import", "../sub/b.facto"], fa], "sub/b.facto": [["import", "./a.facto"], fb]}, ["sub/a.facto"], [["call", "fa", [A]], ["call", "fb", [B]]], [fb, fa])
     add("with-lib", {"a.facto": [["import", "math.facto"], F("fa", [], ["bin", "+", ["call", "abs", [X]], K(1)])]}, ["a.facto"], [["call", "fa", [A]]], [["import", "math.facto"], F("fa", [], ["bin", "+", ["call", "abs", [X]], K(1)])])
     return cases
 
@@ -1856,6 +1880,11 @@ def c07_programs():
         "triangles": (ins3 + [["sig", "x1", P(["bin", "*", A, K(2)], "signal-P")], ["sig", "y1", P(["bin", "+", A, V("x1")], "signal-X")],
                                ["sig", "x2", P(["bin", "+", B, K(7)], "signal-Q")], ["sig", "y2", P(["bin", "*", V("x2"), B], "signal-Y")],
                                ["sig", "x3", ["cmp", ">", C, K(3)]], ["sig", "y3", P(["bin", "+", ["bin", "*", V("x3"), K(10)], C], "signal-Z")]], {}),
+        # round 4: two different values of ONE signal type meeting at a single-condition decider (operands on different colours)
+        "same-type-compare": (ins3[:2] + [["sig", "x1", ["bin", "*", A, K(2)]], ["sig", "x2", ["bin", "+", A, K(3)]], ["sig", "c1", ["cond", ["cmp", ">", V("x1"), V("x2")], V("x1")]], ["sig", "c2", P(["cmp", "<=", V("x2"), V("x1")], "signal-Z")],
+                                           ["sig", "c3", P(["bin", "-", V("x1"), V("x2")], "signal-Y")]], {}),
+        "same-type-compare-mem": (ins3[:1] + [["mem", "m", "signal-A"], ["write", "m", ["bin", "%", ["bin", "+", ["read", "m"], K(1)], K(10)], None], ["sig", "x1", ["bin", "*", ["read", "m"], K(2)]], ["sig", "x2", ["bin", "+", ["read", "m"], K(3)]],
+                                               ["sig", "c1", ["cond", ["cmp", ">", V("x1"), V("x2")], V("x1")]]], {"K": 3}),
         "far": (ins3[:2] + [["place", "l0", "small-lamp", K(25), K(0), None], ["enable", "l0", ["cmp", ">", A, K(5)]], ["place", "l1", "small-lamp", K(-20), K(0), None], ["enable", "l1", ["cmp", ">", ["bin", "+", A, B], K(7)]], ["sig", "o", P(["bin", "-", A, B])]], {}),
     }
     return progs
